@@ -273,6 +273,12 @@ type cqrsGen struct {
 	// 3 = proto.Marshal was called on it (e.g. a gRPC send) - and AFTERWARDS a nested message was edited in place.
 	// The value that is round-tripped is the edited one; where the Go object has been before is not part of the value.
 	history int
+	// what the process did BEFORE this case (optional, written as a suffix ~<seed>_<variant>): another value of the same type
+	// (value seed primeSeed) was marshalled by a marshaler of the same kind in configuration primeVariant. Marshalers are values
+	// without state: what was marshalled before, under whichever configuration, must not change the name of this value.
+	prime        bool
+	primeSeed    uint64
+	primeVariant int
 }
 
 func (g cqrsGen) tok() string {
@@ -280,15 +286,32 @@ func (g cqrsGen) tok() string {
 	if g.ptr {
 		p = 1 + g.history
 	}
-	return fmt.Sprintf("%s.%d.%d.%d.%d", g.family, g.typ, g.seed, g.variant, p)
+	t := fmt.Sprintf("%s.%d.%d.%d.%d", g.family, g.typ, g.seed, g.variant, p)
+	if g.prime {
+		t += fmt.Sprintf("~%d_%d", g.primeSeed, g.primeVariant)
+	}
+	return t
 }
 
 func parseGen(s string) (cqrsGen, error) {
+	var g cqrsGen
+	if i := strings.Index(s, "~"); i >= 0 {
+		pf := strings.Split(s[i+1:], "_")
+		if len(pf) != 2 {
+			return g, fmt.Errorf("bad generator descriptor %q", s)
+		}
+		ps, err1 := strconv.ParseUint(pf[0], 10, 64)
+		pv, err2 := strconv.Atoi(pf[1])
+		if err1 != nil || err2 != nil {
+			return g, fmt.Errorf("bad generator descriptor %q", s)
+		}
+		g.prime, g.primeSeed, g.primeVariant = true, ps, pv
+		s = s[:i]
+	}
 	f := strings.Split(s, ".")
 	if len(f) != 5 {
 		return cqrsGen{}, fmt.Errorf("bad generator descriptor %q", s)
 	}
-	var g cqrsGen
 	g.family = f[0]
 	var err error
 	if g.typ, err = strconv.Atoi(f[1]); err != nil {
@@ -316,30 +339,61 @@ const fixedUUID = "fixed-uuid-é"
 func exoticName(v interface{}) string { return "n <" + cqrs.StructName(v) + ">&\"" }
 
 // marshalerFor builds the marshaler of a kind in one of its configurations; uuid "" = the default generator.
-func marshalerFor(kind string, variant int) (m cqrs.CommandEventMarshaler, uuid string) {
+// namedStructWith and prefixed are constructors of name generators. They are deliberately not inlined: every closure
+// they return comes from ONE function literal (the one inside cqrs.NamedStruct / the one below), as it does in an
+// application that builds its marshaler configurations in a loop or through a helper. Such closures are different
+// functions (different captured fallback / prefix) that share a code pointer.
+//
+//go:noinline
+func namedStructWith(fallback func(v interface{}) string) func(v interface{}) string {
+	return cqrs.NamedStruct(fallback)
+}
+
+//go:noinline
+func prefixed(prefix string) func(v interface{}) string {
+	return func(v interface{}) string { return prefix + cqrs.StructName(v) }
+}
+
+const nNameVariants = 7
+
+// marshalerFor builds the marshaler of a kind in one of its configurations; uuid "" = the default generator.
+// nameOf is the configured name generator itself (the default one when none is configured): "the name of the value"
+// is what that function returns for the value - not what a marshaler method claims it to be.
+func marshalerFor(kind string, variant int) (m cqrs.CommandEventMarshaler, uuid string, nameOf func(v interface{}) string) {
 	var newUUID func() string
 	var genName func(v interface{}) string
-	switch variant % 4 {
+	switch variant % nNameVariants {
 	case 1:
 		uuid = fixedUUID
 		genName = cqrs.StructName
 	case 2:
-		genName = cqrs.NamedStruct(cqrs.FullyQualifiedStructName)
+		genName = namedStructWith(cqrs.FullyQualifiedStructName)
 	case 3:
 		uuid = fixedUUID
 		genName = exoticName
+	case 4:
+		genName = namedStructWith(cqrs.StructName)
+	case 5:
+		genName = prefixed("commands.")
+	case 6:
+		uuid = fixedUUID
+		genName = prefixed("events.")
 	}
 	if uuid != "" {
 		u := uuid
 		newUUID = func() string { return u }
 	}
+	nameOf = genName
+	if nameOf == nil {
+		nameOf = cqrs.FullyQualifiedStructName
+	}
 	switch kind {
 	case "json":
-		return cqrs.JSONMarshaler{NewUUID: newUUID, GenerateName: genName}, uuid
+		return cqrs.JSONMarshaler{NewUUID: newUUID, GenerateName: genName}, uuid, nameOf
 	case "proto":
-		return cqrs.ProtoMarshaler{NewUUID: newUUID, GenerateName: genName}, uuid
+		return cqrs.ProtoMarshaler{NewUUID: newUUID, GenerateName: genName}, uuid, nameOf
 	case "gogo":
-		return cqrs.ProtobufMarshaler{NewUUID: newUUID, GenerateName: genName, DisableStdProtoFallback: variant%8 >= 4}, uuid
+		return cqrs.ProtobufMarshaler{NewUUID: newUUID, GenerateName: genName, DisableStdProtoFallback: variant >= nNameVariants}, uuid, nameOf
 	}
 	panic("marshaler kind")
 }
@@ -509,12 +563,22 @@ func uuidTok(msg *message.Message, fixed string) string {
 
 // runCqrs: Marshal, look at the message, Unmarshal into a fresh value.
 func runCqrs(kind string, g cqrsGen) (req, obs string, serialisable bool) {
-	mar, fixed := marshalerFor(kind, g.variant)
+	if g.prime {
+		// the earlier activity of the process (see cqrsGen.prime); its outcome is of no interest here
+		func() {
+			defer func() { _ = recover() }()
+			mar0, _, _ := marshalerFor(kind, g.primeVariant)
+			arg0, _, _ := valueFor(cqrsGen{family: g.family, typ: g.typ, seed: g.primeSeed, variant: g.primeVariant, ptr: g.ptr})
+			_ = mar0.Name(arg0)
+			_, _ = mar0.Marshal(arg0)
+		}()
+	}
+	mar, fixed, nameOf := marshalerFor(kind, g.variant)
 	arg, target, opt := valueFor(g)
 	if g.history > 0 {
 		ageAndEdit(mar, arg, g)
 	}
-	name := mar.Name(arg)
+	name := nameOf(arg)
 	value := canonValue(opt, arg)
 	serialisable = true
 	if g.family == "n" || (g.family == "j" && reflect.TypeOf(deref(arg)) == reflect.TypeOf(Unserialisable{})) {
@@ -563,16 +627,46 @@ func cqrsCases(out *wh.Out, r *wh.Rng, n int) {
 			out.Count("cqrs.not_serialisable")
 		}
 	}
+	// (these cases come first: a process-wide state left behind by an implementation would make LATER cases fail for reasons
+	// their own request does not contain; the first failing case of a run must be replayable on its own)
+	// the name of a value does not depend on what the process marshalled before: an earlier value of the same type with another
+	// name of its own (Named.Name() depends on the value), an earlier marshaler configuration whose generator is another closure
+	// of the same function literal (NamedStruct with another fallback, another prefix), or any other configuration
+	namedIdx := 4 // index of Named in jsonTypes
+	closurePairs := [][2]int{{2, 4}, {4, 2}, {5, 6}, {6, 5}, {2, 2}, {4, 4}}
+	for i := 0; i < n/4; i++ {
+		for _, kf := range [][2]string{{"json", "j"}, {"proto", "s"}, {"gogo", "g"}} {
+			g := cqrsGen{family: kf[1], typ: i, seed: r.Next() >> 1, ptr: true, prime: true, primeSeed: r.Next() >> 1}
+			switch i % 3 {
+			case 0:
+				pr := closurePairs[r.Intn(len(closurePairs))]
+				g.primeVariant, g.variant = pr[0], pr[1]
+				if kf[0] == "json" {
+					g.typ = namedIdx
+				}
+				out.Count("cqrs.after_other_value_or_configuration.same_function_literal." + kf[0])
+			case 1:
+				pr := closurePairs[r.Intn(4)]
+				g.primeVariant, g.variant = pr[0], pr[1]
+				g.primeSeed = g.seed // the very same value, other configuration
+				out.Count("cqrs.after_other_value_or_configuration.same_value_other_configuration." + kf[0])
+			default:
+				g.primeVariant, g.variant = r.Intn(nNameVariants), r.Intn(nNameVariants)
+				out.Count("cqrs.after_other_value_or_configuration.any." + kf[0])
+			}
+			emit(kf[0], g)
+		}
+	}
 	for i := 0; i < n; i++ {
-		emit("json", cqrsGen{"j", i, r.Next() >> 1, r.Intn(4), r.Bool(), 0})
+		emit("json", cqrsGen{family: "j", typ: i, seed: r.Next() >> 1, variant: r.Intn(nNameVariants), ptr: r.Bool()})
 	}
 	for i := 0; i < n/2; i++ {
-		emit("proto", cqrsGen{"s", i, r.Next() >> 1, r.Intn(4), true, 0})
-		emit("gogo", cqrsGen{"g", i, r.Next() >> 1, r.Intn(8), true, 0})
+		emit("proto", cqrsGen{family: "s", typ: i, seed: r.Next() >> 1, variant: r.Intn(nNameVariants), ptr: true})
+		emit("gogo", cqrsGen{family: "g", typ: i, seed: r.Next() >> 1, variant: r.Intn(2 * nNameVariants), ptr: true})
 	}
 	for i := 0; i < n/6; i++ {
 		// the gogo marshaler given messages of the new API (accepted directly or through the std fallback)
-		g := cqrsGen{"s", i, r.Next() >> 1, r.Intn(4), true, 0}
+		g := cqrsGen{family: "s", typ: i, seed: r.Next() >> 1, variant: r.Intn(nNameVariants), ptr: true}
 		if withUnknown(g) && !gogoStdUnknown {
 			g.seed++ // same message without unknown fields (see gogoStdUnknown)
 			if withUnknown(g) {
@@ -585,7 +679,7 @@ func cqrsCases(out *wh.Out, r *wh.Rng, n int) {
 		// a protobuf value whose Go object has a past (sized / published / encoded before) and whose nested messages were
 		// edited in place afterwards - still just a value: Marshal must succeed and the round trip must be the identity
 		for _, kind := range []string{"proto", "gogo"} {
-			g := cqrsGen{"s", 8, r.Next() >> 1, r.Intn(4), true, 1 + r.Intn(3)}
+			g := cqrsGen{family: "s", typ: 8, seed: r.Next() >> 1, variant: r.Intn(nNameVariants), ptr: true, history: 1 + r.Intn(3)}
 			for kind == "gogo" && withUnknown(g) && !gogoStdUnknown {
 				g.seed++
 			}
@@ -595,7 +689,7 @@ func cqrsCases(out *wh.Out, r *wh.Rng, n int) {
 	}
 	for i := 0; i < 12; i++ {
 		// values that are not protobuf messages: Marshal must fail, nothing to round-trip
-		emit("proto", cqrsGen{"n", 0, r.Next() >> 1, r.Intn(4), i%2 == 0, 0})
-		emit("gogo", cqrsGen{"n", 0, r.Next() >> 1, r.Intn(8), i%2 == 0, 0})
+		emit("proto", cqrsGen{family: "n", seed: r.Next() >> 1, variant: r.Intn(nNameVariants), ptr: i%2 == 0})
+		emit("gogo", cqrsGen{family: "n", seed: r.Next() >> 1, variant: r.Intn(2 * nNameVariants), ptr: i%2 == 0})
 	}
 }
